@@ -6,7 +6,7 @@
            effectiveVET = (locked + queued + withdrawable + cooldown) * 1e18 <= balance. *)
 From Coq Require Import List NArith Bool Lia.
 From Verif Require Import Common.Util Staker.Model Staker.Base Staker.Lists Staker.Inv Staker.RList Staker.Inv2 Staker.ProofsStep
-  Staker.ProofsUser Staker.ProofsUser2 Staker.ProofsHist Staker.ProofsEpoch Staker.ProofsAll.
+  Staker.ProofsUser Staker.ProofsUser2 Staker.ProofsHist Staker.Held Staker.ProofsEpoch Staker.ProofsAll Staker.ProofsCustody.
 Import ListNotations.
 Open Scope N_scope.
 
@@ -59,18 +59,29 @@ Proof. exact (effective_is_sum_of_holdings s). Qed.
 
 (* ---- custody ---- *)
 
-(* FULL per-staker statement over histories (not proved; evaluated on the implementation by the harness ledger):
-   for every validation a, deposits(a) = withdrawals(a) + held(a) along every history *)
-Definition held_by (s : st) (a : N) : N := match getv s a with Some v => held v | None => 0 end.
-Definition paid_in (c : cfg) (s : st) (o : op) (a : N) : N :=
-  match o with
-  | OAddValidation a' _ _ vet | OIncrease a' _ vet => if (a' =? a) && (fst (answer c s o) =? 0) then vet else 0
-  | _ => 0
-  end.
-Definition paid_out (c : cfg) (s : st) (o : op) (a : N) : N :=
-  match o with OWithdraw a' _ => if a' =? a then snd (answer c s o) else 0 | _ => 0 end.
-Definition custody_statement : Prop :=
-  forall c s o a, InvAll s -> held_by (step c s o) a + paid_out c s o a = held_by s a + paid_in c s o a.
+(* per-staker ledger along every history.  held_by s a = locked + queued + cooldown + withdrawable of validation a;
+   paid_in / paid_out = the VET a successful AddValidation / IncreaseStake brought in and a successful WithdrawStake paid out
+   (read off the operation's answer); total sums them along the history.  What was paid in is exactly what was paid out plus
+   what is still held: nobody gets out more than was put in, and gets everything once nothing is held any more. *)
+Theorem custody c d m ops a :
+  held_by (run c (init d m) ops) a + total paid_out c (init d m) ops a = total paid_in c (init d m) ops a.
+Proof. pose proof (custody_validation_hist c (init d m) ops a (Full_init d m)) as H. exact H. Qed.
+
+Theorem custody_never_more_out_than_in c d m ops a :
+  total paid_out c (init d m) ops a <= total paid_in c (init d m) ops a /\
+  (held_by (run c (init d m) ops) a = 0 <-> total paid_out c (init d m) ops a = total paid_in c (init d m) ops a).
+Proof. pose proof (custody c d m ops a). split; [lia|split; lia]. Qed.
+
+(* the same for a delegation id: stake still there + withdrawn = deposited *)
+Theorem custody_delegation c d m ops id :
+  stake_of (run c (init d m) ops) id + total deleg_out c (init d m) ops id = total deleg_in c (init d m) ops id.
+Proof. pose proof (custody_delegation_hist c (init d m) ops id (Full_init d m)) as H. exact H. Qed.
+
+(* one step, from any state reached by a history: the ledger equation for every operation incl. blocks *)
+Theorem custody_every_step c d m ops o a :
+  let s := run c (init d m) ops in
+  held_by (step c s o) a + paid_out c s o a = held_by s a + paid_in c s o a.
+Proof. exact (custody_step c _ o a (history_FullInv c d m ops)). Qed.
 
 (* proved: WithdrawStake pays exactly the free buckets: withdrawable + queued, and the cooldown bucket only once
    exit block + cooldown period <= current block; the locked bucket is never paid; only the endorser is served *)
@@ -103,6 +114,10 @@ Example ex_moves_money :
   (g_q s, eff s, map (fun o => answer ex_cfg (init 7 3) o) [OAddValidation 161 57505 8 25000000]) =
   (25000000, 25000000 * e18, [(0, 0)]).
 Proof. vm_compute. reflexivity. Qed.
+Example ex_custody_nontrivial :
+  (total paid_in ex_cfg (init 7 3) ex_ops 162, total paid_out ex_cfg (init 7 3) ex_ops 162, held_by (run ex_cfg (init 7 3) ex_ops) 162,
+   total paid_in ex_cfg (init 7 3) ex_ops 161, held_by (run ex_cfg (init 7 3) ex_ops) 161) = (30000000, 30000000, 0, 25000000, 25000000).
+Proof. vm_compute. reflexivity. Qed.
 Example ex_hyps_hold : exists lq, WF (init 7 3) [] lq /\ Inv1 (init 7 3) /\ InvA (init 7 3).
 Proof. destruct (InvAll_init 7 3) as [la [lq [H1 [H2 H3]]]]. exists []. split; [|split]; auto.
   constructor; [constructor; cbn; auto; constructor|constructor; cbn; auto; constructor|intros a v H; discriminate]. Qed.
@@ -110,6 +125,10 @@ Proof. destruct (InvAll_init 7 3) as [la [lq [H1 [H2 H3]]]]. exists []. split; [
 Print Assumptions full_invariant.
 Print Assumptions counters_sum.
 Print Assumptions tracked_total_along_histories.
+Print Assumptions custody.
+Print Assumptions custody_never_more_out_than_in.
+Print Assumptions custody_delegation.
+Print Assumptions custody_every_step.
 Print Assumptions counters_sum_initial.
 Print Assumptions counters_sum_every_user_operation.
 Print Assumptions counters_sum_between_epochs.
